@@ -166,7 +166,8 @@ def numbers_rule(rep, prog, cfg):
 def invalid_rule(rep, prog, cfg):
     """Non-incomplete parse errors map to Err(InvalidMessage) only."""
     rule = "C09.invalid"
-    targets = [("builder", body_by_name(prog, PARSE))]
+    from ..common import builder_parse_bodies
+    targets = [("builder", builder_parse_bodies(prog))]
     lb = conn_bodies(prog)
     targets.append(("blocking/connect", [lb["blocking/connect"]] if lb.get("blocking/connect") else []))
     if cfg != "K3":
@@ -186,9 +187,12 @@ def invalid_rule(rep, prog, cfg):
         inv = {bb for bb, i, s in b.stmts() if s["k"] == "assign" and s["rv"]["k"] == "agg" and s["rv"].get("variant") == "InvalidMessage"}
         # `Err(_)` arm: false side of is_incomplete; it must only reach returns through an InvalidMessage construction,
         # and never the loop's continuation
-        region = reach(g.succs, a["false"], avoid=list(inv))
+        # variant-sensitive (A13): when the parse step sits in a helper spliced in here, all of its outcomes merge in its single
+        # return block and are told apart again by the caller's `?` / `let else`
+        from ..cfg import vreach
+        region = vreach(b, a["false"], avoid=set(inv))
         leaks = [x for x in region if b.blocks[x]["t"]["k"] == "return"]
-        loops_back = a["bb"] in reach(g.succs, a["false"])
+        loops_back = a["bb"] in vreach(b, a["false"])
         rep.check(bool(inv) and not leaks and not loops_back, rule, "%s/%s" % (cfg, name), b.loc(b.blocks[a["bb"]]["ts"]),
                   "a parse error that is not 'incomplete' does not always end in Err(InvalidMessage) (it can %s): malformed input could be retried forever or yield fabricated data"
                   % ("continue the loop" if loops_back else "return something else"))
@@ -219,7 +223,8 @@ def read_loop_rule(rep, prog, cfg):
             rep.check(has_read and exits, rule, "%s/%s loop#%d exits on 0-byte read" % (cfg, name, n_loops), b.loc(b.span),
                       "a loop in %s does not contain a read whose 0-byte result leaves the loop: a closed connection would spin forever" % name)
         rep.floor(rule, "%s/%s protocol loops" % (cfg, name), n_loops, 1)
-    bs = body_by_name(prog, PARSE)
+    from ..common import builder_parse_bodies
+    bs = builder_parse_bodies(prog)
     if len(bs) == 1:
         b = bs[0]
         g = Cfg(b)
@@ -230,8 +235,10 @@ def read_loop_rule(rep, prog, cfg):
                 leaves, _ = fl.sources([op_local(t["args"][0])], through_call=identity_through, follow_mut=False)
                 if ("param", 2) in leaves:
                     consuming.append(bb)
+        from ..cfg import state_cycle_blocks
+        feasible_cycle = state_cycle_blocks(b, avoid=consuming)
         for i, loop in enumerate(g.loops):
-            rest = sccs(g.succs, loop - set(consuming))
+            rest = [c for c in sccs(g.succs, loop - set(consuming)) if set(c) & feasible_cycle]
             rep.check(not rest, rule, "%s/builder loop#%d consumes" % (cfg, i), b.loc(b.span),
                       "ResponseBuilder::parse has a cycle that does not remove bytes from the source buffer on every turn")
         rep.floor(rule, cfg + "/builder loops", len(g.loops), 1)
